@@ -335,11 +335,16 @@ def pilot(elfi, spec, n=80, seed=12345):
     return np.sort(d[np.isfinite(d)])
 
 
+def gen_seed(tape):
+    """Master seed of a workload; 0 is a legal seed like any other (and falsy)."""
+    return 0 if tape.chance('seed_zero', 1, 10) else tape.int('seed', 1, 2 ** 20)
+
+
 def gen_rejection_workload(tape, spec, pil, extra_outputs=True, allow_threshold=True,
                            extras_optional=False):
     bs = tape.int('batch_size', 1, 12)
     n = tape.int('n_samples', 1, 20)
-    wl = {'method': 'rejection', 'batch_size': bs, 'seed': tape.int('seed', 0, 2 ** 20),
+    wl = {'method': 'rejection', 'batch_size': bs, 'seed': gen_seed(tape),
           'n_samples': n}
     outs = list(spec['sums']) if tape.chance('out_sums', 1, 2) else []
     if extra_outputs:
@@ -368,7 +373,7 @@ def gen_smc_workload(tape, spec, pil):
     bs = tape.int('batch_size', 1, 12)
     nparam = len(spec['params'])
     n = tape.int('n_samples', 2 if nparam >= 2 else 1, 16)
-    wl = {'method': 'smc', 'batch_size': bs, 'seed': tape.int('seed', 0, 2 ** 20),
+    wl = {'method': 'smc', 'batch_size': bs, 'seed': gen_seed(tape),
           'n_samples': n}
     wl['output_names'] = list(spec['sums']) if tape.chance('out_sums', 1, 2) else []
     rounds = tape.int('rounds', 2, 4)
